@@ -232,6 +232,7 @@ pub fn run(sc: &Scenario) -> J {
     let mut jobs: Vec<Job<bool>> = vec![];
     let mut replied: Vec<bool> = vec![false; n as usize];
     let mut sent = 0u32;
+    let mut spun = false;
 
     fn poll_jobs(jobs: &mut [Job<bool>], replied: &mut [bool], only_woken: bool) {
         for (i, j) in jobs.iter_mut().enumerate() {
@@ -245,23 +246,51 @@ pub fn run(sc: &Scenario) -> J {
             }
         }
     }
-    fn settle_all(pair: &mut Pair, jobs: &mut [Job<bool>], replied: &mut [bool]) {
+    /// Run both executors and the client futures until nothing moves.  Returns true if it had to give up
+    /// on a *spin*: tasks that keep waking each other without any observable effect.  (Seen with
+    /// async-lock 3.4.1: two or more tasks waiting in `RwLock::read()` behind a writer that is itself
+    /// suspended re-notify each other forever -- a busy wait, not progress.  SPIN_LIMIT consecutive task
+    /// runs without a logged event or a completed call are treated as idle.)
+    const SPIN_LIMIT: u64 = 20_000;
+    fn settle_all(pair: &mut Pair, jobs: &mut [Job<bool>], replied: &mut [bool]) -> bool {
+        let mut idle_ticks = 0u64;
         loop {
             let mut progress = false;
-            while pair.tick_server() {
+            let mark = LOG.lock().unwrap().len();
+            loop {
+                let a = pair.tick_server();
+                let b = pair.tick_client();
+                if !(a || b) {
+                    break;
+                }
                 progress = true;
+                idle_ticks += 1;
+                if idle_ticks % 64 == 0 {
+                    // let replies through even while something spins
+                    poll_jobs(jobs, replied, true);
+                }
+                if LOG.lock().unwrap().len() != mark {
+                    break;
+                }
+                if idle_ticks > SPIN_LIMIT {
+                    return true;
+                }
             }
-            while pair.tick_client() {
-                progress = true;
+            if LOG.lock().unwrap().len() != mark {
+                idle_ticks = 0;
             }
             let before = replied.iter().filter(|x| **x).count();
             let woken = jobs.iter().any(|j| j.woken());
             poll_jobs(jobs, replied, true);
-            if woken || replied.iter().filter(|x| **x).count() != before {
+            if replied.iter().filter(|x| **x).count() != before {
+                idle_ticks = 0;
+                progress = true;
+            }
+            if woken {
                 progress = true;
             }
             if !progress {
-                break;
+                return false;
             }
         }
     }
@@ -286,7 +315,9 @@ pub fn run(sc: &Scenario) -> J {
                 poll_jobs(&mut jobs, &mut replied, true);
             }
             Step::Open(k) => open_gate(*k),
-            Step::Settle => settle_all(&mut pair, &mut jobs, &mut replied),
+            Step::Settle => {
+                spun |= settle_all(&mut pair, &mut jobs, &mut replied);
+            }
         }
     }
     // epilogue: write what is left, open every gate, run to quiescence
@@ -302,12 +333,12 @@ pub fn run(sc: &Scenario) -> J {
             open_gate(k);
         }
     }
-    settle_all(&mut pair, &mut jobs, &mut replied);
+    spun |= settle_all(&mut pair, &mut jobs, &mut replied);
     let pending: Vec<u32> = (1..=n).filter(|k| !replied[*k as usize - 1]).collect();
     LOG.lock().unwrap().push(json!({"e": "Quiescent", "k": 0, "pending": pending}));
     let evs = LOG.lock().unwrap().clone();
     json!({
-        "id": sc.id, "class": sc.class, "spawn": sc.spawn, "lazy": sc.lazy,
+        "id": sc.id, "class": sc.class, "spawn": sc.spawn, "lazy": sc.lazy, "spun": spun,
         "calls": sc.calls.iter().map(|c| json!({"kind": c.kind, "body": c.body.iter().map(|x| x.to_string()).collect::<Vec<_>>()})).collect::<Vec<_>>(),
         "steps": sc.steps.iter().map(step_json).collect::<Vec<_>>(),
         "ev": evs,
@@ -390,7 +421,6 @@ fn parse_calls(j: &J) -> Vec<CallCfg> {
 pub fn replay(cases: &str, schedules: u64, seed: u64, out: &str) {
     let f = std::io::BufReader::new(std::fs::File::open(cases).expect("cases file"));
     let mut o = std::io::BufWriter::new(std::fs::File::create(out).expect("out file"));
-    let mut next_id = 0u64;
     for line in f.lines() {
         let line = line.unwrap();
         if line.trim().is_empty() {
@@ -420,11 +450,11 @@ pub fn replay(cases: &str, schedules: u64, seed: u64, out: &str) {
             } else {
                 random_steps(&mut rng, &calls, s % 2 == 1)
             };
-            let sc = Scenario { id: next_id, class: class.clone(), spawn, lazy, calls: calls.clone(), steps };
-            next_id += 1;
+            let sc = Scenario { id: cid * 100 + s, class: class.clone(), spawn, lazy, calls: calls.clone(), steps };
             writeln!(o, "{}", run(&sc)).unwrap();
         }
     }
+    o.flush().unwrap();
 }
 
 /// impl -> spec: seeded random configurations and schedules.
@@ -484,6 +514,10 @@ pub fn random(class: &str, n: u64, seed: u64, out: &str) {
         };
         let base = match class { "burst" => 1_000_000, "mutate" => 2_000_000, _ => 3_000_000 };
         let sc = Scenario { id: base + i, class: class.into(), spawn, lazy, calls, steps };
+        if std::env::var("OBJ_DEBUG").is_ok() {
+            eprintln!("scenario {} spawn={} lazy={} calls={:?} steps={:?}", sc.id, sc.spawn, sc.lazy, sc.calls, sc.steps);
+        }
         writeln!(o, "{}", run(&sc)).unwrap();
+        o.flush().unwrap();
     }
 }
